@@ -253,7 +253,7 @@ Definition site_table : list (string * string * string * string * just * string)
   ("x/xibc/core/client/keeper/keeper.go", "Keeper.clearClientStore", "lib", "store.Delete(key)",
    Benign, "constant / prefixed non-empty key, non-nil value (marshalled message or []byte(string))");
   ("x/xibc/core/client/keeper/relayer.go", "Keeper.RegisterRelayers", "lib", "store.Set([]byte(address), irBz)",
-   Finding, "proposal path: the address passed AccAddressFromBech32 (non-empty) - handle_xprop_safe; GENESIS path: Validate does not look at the relayers, an empty address panics ""key is nil"": finding xibc-genesis-relayer-empty-address (gx_init_safe needs relayers_nonempty, C15_xibc_genesis_relayer_refuted shows it is necessary)");
+   (Guard (@gx_init_safe)), "the address is the store key: proposals (ValidateBasic) and, since d9df21a, the genesis validation (IdentifiedRelayer.Validate, model relayer_ok) require a bech32 address, which is never empty (handle_xprop_safe; gx_init_safe with relayer_check = true; the pinned behaviour is refuted in C15_xibc_genesis_relayer_refuted)");
   ("x/xibc/core/client/keeper/relayer.go", "Keeper.RegisterRelayers", "must", "k.cdc.MustMarshal(ir)",
    Benign, "marshalling strings cannot fail");
   ("x/xibc/core/client/proposal_handler.go", "handleCreateClientProposal", "nilrecv", "clientState.GetLatestHeight().String()",
